@@ -354,6 +354,31 @@ def py_oracle_C03(case):
 PY_ORACLES = {"C17": py_oracle_C17, "C14": py_oracle_C14, "C03": py_oracle_C03}
 
 
+def judge_all(oracle_id, ic, impl):
+    """Verdict per case for an oracle id that may join several oracles with '+': the parts that have a
+    Python oracle are judged by it (where it applies to the case: it returns None otherwise and the
+    native oracle of that part is asked), the others by the native driver; a case passes if every part does."""
+    if not oracle_id:
+        return {}
+    verdicts = {}
+    def merge(i, v):
+        if i not in verdicts or verdicts[i][0] in ("ok", "SKIP"):
+            verdicts[i] = v
+    for one in oracle_id.split("+"):
+        if one in PY_ORACLES:
+            pv = {i: PY_ORACLES[one](c) for i, c in enumerate(ic)}
+            nat = run_oracle(one, impl) if any(v is None for v in pv.values()) else {}
+            for i, v in pv.items():
+                if v is not None:
+                    merge(i, (("ok" if v else "FAIL"), one))
+                elif i in nat:
+                    merge(i, nat[i])
+        else:
+            for i, v in run_oracle(one, impl).items():
+                merge(i, v)
+    return verdicts
+
+
 def split_cases(text):
     cases, cur = [], None
     for l in text.splitlines():
@@ -843,14 +868,7 @@ def worker(args):
         return res
     ic, mc = split_cases(impl), split_cases(model)
     oc = split_cases(ops)
-    verdicts = run_oracle(oracle_id, impl) if (oracle_id and oracle_id not in PY_ORACLES) else {}
-    if oracle_id in PY_ORACLES:
-        pv = {i: PY_ORACLES[oracle_id](c) for i, c in enumerate(ic)}
-        if any(v is None for v in pv.values()):
-            verdicts = run_oracle(oracle_id, impl)
-        for i, v in pv.items():
-            if v is not None:
-                verdicts[i] = (("ok" if v else "FAIL"), "")
+    verdicts = judge_all(oracle_id, ic, impl)
     hist = {}
     for idx, c in enumerate(ic):
         for l in c[1:]:
@@ -896,11 +914,9 @@ def judge_case(prop, ops_lines, mode, oracle_id):
     ic = split_cases(impl)
     mc = split_cases(model or "")
     ok = True
-    pv = [PY_ORACLES[oracle_id](c) for c in ic] if oracle_id in PY_ORACLES else [None] * len(ic)
-    if oracle_id and any(x is None for x in pv):
-        v = run_oracle(oracle_id, impl)
-        ok = len(v) == len(ic) and all(v[i][0] in ("ok", "SKIP") for i in range(len(ic)) if pv[i] is None)
-    ok = ok and all(x for x in pv if x is not None)
+    if oracle_id:
+        v = judge_all(oracle_id, ic, impl)
+        ok = len(v) == len(ic) and all(v[i][0] in ("ok", "SKIP") for i in range(len(ic)))
     if ierr:
         ok = False
     agrees = len(ic) == len(mc) and all(first_diff(a, b, mode) is None for a, b in zip(ic, mc))
